@@ -7,8 +7,8 @@ from harness import common as C
 
 TRUSTED = [
     "Coq 8.16.1 kernel + coqc; vm_compute only in the closed Example; no native_compute",
-    "translators/readloops.py (Python ast -> Gallina for ParquetFile.head and the row-group loop of ParquetFile.to_pandas on its default "
-    "path: no filters, row_filter=False) and its prelude Dataset/PyPrelude.v (unbound locals, numpy basic slicing with clamping, "
+    "translators/readloops.py (Python ast -> Gallina for ParquetFile.head, ParquetFile.iter_row_groups and the row-group loop of "
+    "ParquetFile.to_pandas on their default path: no filters, row_filter=False) and its prelude Dataset/PyPrelude.v (unbound locals, numpy basic slicing with clamping, "
     "slice assignment refusing a length mismatch)",
     "extraction: ExtrOcamlBasic only, no Extract Constant; ocaml/driver.ml s-expression I/O",
     "section variables of the model: rows d = what core.read_row_group delivers for a row-group descriptor (C01/C03 cover the decoding), "
@@ -34,7 +34,7 @@ def _translated(ctx):
     from translators import readloops
     res = readloops.run(C.REPO, ctx.gen_dir)
     ctx.extra["translator"] = {k: {kk: vv for kk, vv in v.items() if kk != "file"} for k, v in res.items()}
-    for unit, proofs in (("GenToPandas", "GenToPandasProofs.v"), ("GenHead", "GenHeadProofs.v")):
+    for unit, proofs in (("GenToPandas", "GenToPandasProofs.v"), ("GenHead", "GenHeadProofs.v"), ("GenIter", "GenIterProofs.v")):
         r = res[unit]
         if r["status"] != "translated":
             ctx.notes.append("translator_fallback: %s: %s" % (unit, r["reason"]))
